@@ -18,6 +18,27 @@ def cases(ctx):
     rng = ctx.rng
     for i in range(ctx.n(60, 900)):
         yield {"hist": H.gen_history(rng, rng.randint(3, 8), nvars0=rng.choice([2, 2, 3]), R=rng.choice([6, 10]))}
+    # curved shapes (interior control points are not junctions): constructors, copies, complements, short-cut
+    # operators (x | Empty, x & x, x | contained), then in-place transformations of either side
+    for i in range(ctx.n(16, 300)):
+        kind = i % 3
+        if kind == 0:
+            curved = I.shape_data(I.Primitive.circle(rng.choice([1, 2, F(3, 2)]), (rng.randint(-3, 3), rng.randint(-3, 3)), rng.choice([4, 6, 8])))
+        else:
+            vs = G.ccw(G.star_polygon(rng, n=rng.randint(3, 5), R=6))
+            d = 2 if kind == 1 else 3
+            j = []
+            for a, b in G.poly_edges(vs):
+                mid = [((1 - F(t, d)) * a[0] + F(t, d) * b[0] + F(rng.choice([-1, 1]), 4), (1 - F(t, d)) * a[1] + F(t, d) * b[1] + F(rng.choice([-1, 1]), 4)) for t in range(1, d)]
+                j.append([a] + mid + [b])
+            curved = ("S", j)
+        big = ("S", G.verts_to_jordan(G.ccw([(F(-40), F(-40)), (F(40), F(-40)), (F(40), F(40)), (F(-40), F(40))])))
+        ops = [("new", curved, "frac"), ("new", big, "frac"), ("new", ("E",), "frac")]
+        mk = [("copy", 0), ("not", 0), ("bin", "|", 0, 2), ("bin", "&", 0, 0), ("bin", "&", 1, 0), ("bin", "|", 2, 0)][i % 6]
+        ops.append(mk)
+        tgt = 3 if i % 2 else 0
+        ops.append([("move", tgt, (F(5, 2), F(-1))), ("scale", tgt, (F(2), F(3))), ("rot", tgt, (F(3, 5), F(4, 5)))][(i // 2) % 3])
+        yield {"hist": ops, "curved": True}
     if ctx.thorough():
         # all histories of length <= 3 over a small alphabet on two fixed overlapping shapes
         import itertools
@@ -31,6 +52,8 @@ def cases(ctx):
 
 
 def nontrivial(case):
+    if case.get("curved"):
+        return True
     ks = [op[0] for op in case["hist"]]
     if "bin" not in ks:
         return False
@@ -85,6 +108,10 @@ def check(ctx, case):
         if fails:
             return fails
     # correspondence with MH: geometry and aliasing partition at the end (and at a random prefix in thorough)
+    if case.get("curved"):
+        if any(op[0] == "bin" for op in hist):
+            return fails            # crossing search on curved segments is outside the value model
+        exact = False               # circle data are floats: the implementation rounds, the model does not
     rm = H.model_run(ctx.model, hist)
     ctx.k_cases += 1
     if rm[0] != "ok":
